@@ -209,4 +209,331 @@ theorem debit_authorised {s s' : State} {blk : Block} {snd : Addr} {msg : Msg} {
     obtain ⟨_, al, al2, b1, e1, e2, e3, _, _, _, e7, _⟩ := draw_inv h hd
     exact ⟨o, amt, al, rfl, rfl, e1, e2, e3, by rw [e7]; simp, hle⟩
 
+/-! ## Clause 2: a draw needs a valid allowance, lowers it by exactly the amount, moves exactly the amount -/
+
+/-- **C02, draw requires (converse of authorisation).** A successful `TransferFrom`/`SendFrom`/`BurnFrom`
+on `o` for `amt` by `snd` implies: the allowance `(o, snd)` was present, unexpired at `blk` and at least
+`amt` (in the owner-keyed map and in its spender-keyed mirror), and the owner's balance covered `amt`. -/
+theorem draw_requires {s s' : State} {blk : Block} {snd : Addr} {msg : Msg} {out : List Out}
+    {o : AddrArg} {amt : Nat}
+    (h : execute s blk snd msg = .ok (s', out)) (hd : drawOf msg = some (o, amt)) :
+    o.valid = true ∧ amt ≤ bal s o.text ∧
+    (∃ al, s.allow.get? (o.text, snd) = some al ∧ al.expires.isExpired blk = false ∧ amt ≤ al.amount) ∧
+    (∃ al2, s.allowSp.get? (snd, o.text) = some al2 ∧ al2.expires.isExpired blk = false ∧ amt ≤ al2.amount) := by
+  obtain ⟨hv, al, al2, b1, e1, e2, e3, e4, e5, e6, _, _, _, h1, _⟩ := draw_inv h hd
+  exact ⟨hv, (debit_ok.mp h1).1, ⟨al, e1, e2, e3⟩, ⟨al2, e4, e5, e6⟩⟩
+
+/-- Exactly `amt` moved from `frm` to `to` (net zero when they coincide); nobody else changed. -/
+def Moved (s s' : State) (frm to : Addr) (amt : Nat) : Prop :=
+  amt ≤ bal s frm ∧
+  (frm ≠ to → bal s' frm + amt = bal s frm ∧ bal s' to = bal s to + amt) ∧
+  (frm = to → bal s' frm = bal s frm) ∧
+  (∀ x, x ≠ frm → x ≠ to → bal s' x = bal s x) ∧
+  s'.supply = s.supply
+
+/-- Exactly `amt` left `frm` and the supply; nobody else changed. -/
+def Burned (s s' : State) (frm : Addr) (amt : Nat) : Prop :=
+  amt ≤ bal s frm ∧ bal s' frm + amt = bal s frm ∧ (∀ x, x ≠ frm → bal s' x = bal s x) ∧
+  amt ≤ s.supply ∧ s'.supply + amt = s.supply
+
+theorem moved_of {s s' : State} {b1 : AMap Addr Nat} {frm to : Addr} {amt : Nat}
+    (h1 : debit s.balances frm amt = .ok b1) (h2 : credit b1 to amt = .ok s'.balances)
+    (hs : s'.supply = s.supply) : Moved s s' frm to amt := by
+  have hm := move_get h1 h2
+  have hle := (hm frm).1
+  simp only [Moved, bal_def]
+  refine ⟨hle, ?_, ?_, ?_, hs⟩
+  · intro hne
+    have hne' : ¬ to = frm := fun e => hne e.symm
+    rw [(hm frm).2, (hm to).2]
+    simp [hne, hne']; omega
+  · intro he; subst he
+    rw [(hm frm).2]; simp
+  · intro x h1 h2
+    rw [(hm x).2]; simp [h1, h2]
+
+theorem burned_of {s s' : State} {frm : Addr} {amt : Nat}
+    (h1 : debit s.balances frm amt = .ok s'.balances) (hle : amt ≤ s.supply)
+    (hs : s'.supply = s.supply - amt) : Burned s s' frm amt := by
+  have hle' := (debit_ok.mp h1).1
+  simp only [Burned, bal_def]
+  refine ⟨hle', ?_, ?_, hle, by omega⟩
+  · rw [debit_get h1 frm]; simp; omega
+  · intro x hx; rw [debit_get h1 x]; simp [hx]
+
+/-- **C02, draw exactness (all three `*From` kinds at once).** A successful draw of `amt` on owner `o`
+by spender `snd` lowers the allowance by exactly `amt` in BOTH maps (expiry untouched) and moves exactly
+`amt`: to the recipient for `TransferFrom`/`SendFrom` (`Moved`, supply unchanged), out of the supply for
+`BurnFrom` (`Burned`). -/
+theorem draw_exact {s s' : State} {blk : Block} {snd : Addr} {msg : Msg} {out : List Out}
+    {o : AddrArg} {amt : Nat}
+    (h : execute s blk snd msg = .ok (s', out)) (hd : drawOf msg = some (o, amt)) :
+    (∃ al, s.allow.get? (o.text, snd) = some al ∧ amt ≤ al.amount ∧
+      s'.allow.get? (o.text, snd) = some ⟨al.amount - amt, al.expires⟩) ∧
+    (∃ al2, s.allowSp.get? (snd, o.text) = some al2 ∧ amt ≤ al2.amount ∧
+      s'.allowSp.get? (snd, o.text) = some ⟨al2.amount - amt, al2.expires⟩) ∧
+    ((∃ r, drawRecipient msg = some r ∧ Moved s s' o.text r.text amt) ∨
+     (drawRecipient msg = none ∧ Burned s s' o.text amt)) := by
+  obtain ⟨hv, al, al2, b1, e1, e2, e3, e4, e5, e6, e7, e8, _, h1, hrest⟩ := draw_inv h hd
+  refine ⟨⟨al, e1, e3, by rw [e7]; simp⟩, ⟨al2, e4, e6, by rw [e8]; simp⟩, ?_⟩
+  rcases hrest with ⟨r, hr, _, h2, hs⟩ | ⟨hr, hb, hle, hs⟩
+  · exact .inl ⟨r, hr, moved_of h1 h2 hs⟩
+  · exact .inr ⟨hr, burned_of (by rw [hb]; exact h1) hle hs⟩
+
+/-- `draw_exact` spelled out for `TransferFrom`. -/
+theorem draw_exact_transferFrom {s s' : State} {blk : Block} {snd : Addr} {o r : AddrArg} {amt : Nat}
+    {out : List Out} (h : execute s blk snd (.transferFrom o r amt) = .ok (s', out)) :
+    (∃ al, s.allow.get? (o.text, snd) = some al ∧ amt ≤ al.amount ∧
+      s'.allow.get? (o.text, snd) = some ⟨al.amount - amt, al.expires⟩) ∧
+    (∃ al2, s.allowSp.get? (snd, o.text) = some al2 ∧ amt ≤ al2.amount ∧
+      s'.allowSp.get? (snd, o.text) = some ⟨al2.amount - amt, al2.expires⟩) ∧
+    Moved s s' o.text r.text amt := by
+  obtain ⟨h1, h2, h3⟩ := draw_exact h (o := o) (amt := amt) rfl
+  refine ⟨h1, h2, ?_⟩
+  rcases h3 with ⟨r', hr, hm⟩ | ⟨hr, _⟩
+  · simp [drawRecipient] at hr; subst hr; exact hm
+  · simp [drawRecipient] at hr
+
+/-- `draw_exact` spelled out for `SendFrom`. -/
+theorem draw_exact_sendFrom {s s' : State} {blk : Block} {snd : Addr} {o c : AddrArg} {amt : Nat}
+    {p : String} {out : List Out} (h : execute s blk snd (.sendFrom o c amt p) = .ok (s', out)) :
+    (∃ al, s.allow.get? (o.text, snd) = some al ∧ amt ≤ al.amount ∧
+      s'.allow.get? (o.text, snd) = some ⟨al.amount - amt, al.expires⟩) ∧
+    (∃ al2, s.allowSp.get? (snd, o.text) = some al2 ∧ amt ≤ al2.amount ∧
+      s'.allowSp.get? (snd, o.text) = some ⟨al2.amount - amt, al2.expires⟩) ∧
+    Moved s s' o.text c.text amt := by
+  obtain ⟨h1, h2, h3⟩ := draw_exact h (o := o) (amt := amt) rfl
+  refine ⟨h1, h2, ?_⟩
+  rcases h3 with ⟨r', hr, hm⟩ | ⟨hr, _⟩
+  · simp [drawRecipient] at hr; subst hr; exact hm
+  · simp [drawRecipient] at hr
+
+/-- `draw_exact` spelled out for `BurnFrom`: owner −amt and supply −amt. -/
+theorem draw_exact_burnFrom {s s' : State} {blk : Block} {snd : Addr} {o : AddrArg} {amt : Nat}
+    {out : List Out} (h : execute s blk snd (.burnFrom o amt) = .ok (s', out)) :
+    (∃ al, s.allow.get? (o.text, snd) = some al ∧ amt ≤ al.amount ∧
+      s'.allow.get? (o.text, snd) = some ⟨al.amount - amt, al.expires⟩) ∧
+    (∃ al2, s.allowSp.get? (snd, o.text) = some al2 ∧ amt ≤ al2.amount ∧
+      s'.allowSp.get? (snd, o.text) = some ⟨al2.amount - amt, al2.expires⟩) ∧
+    Burned s s' o.text amt := by
+  obtain ⟨h1, h2, h3⟩ := draw_exact h (o := o) (amt := amt) rfl
+  refine ⟨h1, h2, ?_⟩
+  rcases h3 with ⟨r', hr, _⟩ | ⟨_, hb⟩
+  · simp [drawRecipient] at hr
+  · exact hb
+
+/-- **C02, holder moves are exact too** (the amount named in the notification of `Send` is the amount
+actually moved): `Transfer`/`Send` move exactly `amt` from the sender, `Burn` burns exactly `amt` of the
+sender's; none of them touches any allowance. -/
+theorem holder_move_exact {s s' : State} {blk : Block} {snd : Addr} {msg : Msg} {out : List Out}
+    (h : execute s blk snd msg = .ok (s', out)) :
+    (∀ r amt, msg = .transfer r amt → r.valid = true ∧ Moved s s' snd r.text amt) ∧
+    (∀ c amt p, msg = .send c amt p → c.valid = true ∧ Moved s s' snd c.text amt) ∧
+    (∀ amt, msg = .burn amt → Burned s s' snd amt) ∧
+    (isHolderMove msg = true → s'.allow = s.allow ∧ s'.allowSp = s.allowSp) := by
+  refine ⟨?_, ?_, ?_, ?_⟩
+  · rintro r amt rfl
+    obtain ⟨hv, b1, b2, h1, h2, rfl, _⟩ := execTransfer_inv h
+    exact ⟨hv, moved_of h1 h2 rfl⟩
+  · rintro c amt p rfl
+    obtain ⟨hv, b1, b2, h1, h2, rfl, _⟩ := execSend_inv h
+    exact ⟨hv, moved_of h1 h2 rfl⟩
+  · rintro amt rfl
+    obtain ⟨b1, h1, hle, rfl, _⟩ := execBurn_inv h
+    exact burned_of h1 hle rfl
+  · intro hm
+    cases msg <;> simp only [isHolderMove, Bool.false_eq_true] at hm <;> simp only [execute] at h
+    · obtain ⟨_, b1, b2, _, _, rfl, _⟩ := execTransfer_inv h; exact ⟨rfl, rfl⟩
+    · obtain ⟨b1, _, _, rfl, _⟩ := execBurn_inv h; exact ⟨rfl, rfl⟩
+    · obtain ⟨_, b1, b2, _, _, rfl, _⟩ := execSend_inv h; exact ⟨rfl, rfl⟩
+
+/-! ## Clause 4: an allowance changes only by its owner's increase/decrease or its spender's draws -/
+
+theorem key_of_set_ne {κ ν : Type} [DecidableEq κ] {m : AMap κ ν} {k k' : κ} {v : ν}
+    (h : (m.set k v).get? k' ≠ m.get? k') : k = k' := by
+  by_cases e : k = k'
+  · exact e
+  · rw [AMap.get?_set_ne _ _ _ _ e] at h; exact absurd rfl h
+
+theorem key_of_erase_ne {κ ν : Type} [DecidableEq κ] {m : AMap κ ν} {k k' : κ}
+    (h : (m.erase k).get? k' ≠ m.get? k') : k = k' := by
+  by_cases e : k = k'
+  · exact e
+  · rw [AMap.get?_erase_ne _ _ _ e] at h; exact absurd rfl h
+
+/-- Frame of both allowance maps at once: the entry of the pair `(o, sp)` — `allow (o, sp)` or its mirror
+`allowSp (sp, o)` — is changed by a successful call only if the sender is `o` and the call is an
+`Increase`/`DecreaseAllowance` for spender `sp`, or the sender is `sp` and the call is a `*From` on `o`. -/
+theorem allowance_frame_both {s s' : State} {blk : Block} {snd : Addr} {msg : Msg} {out : List Out}
+    {o sp : Addr} (h : execute s blk snd msg = .ok (s', out))
+    (hne : s'.allow.get? (o, sp) ≠ s.allow.get? (o, sp) ∨ s'.allowSp.get? (sp, o) ≠ s.allowSp.get? (sp, o)) :
+    (snd = o ∧ ∃ spArg, allowanceEditOf msg = some spArg ∧ spArg.text = sp) ∨
+    (snd = sp ∧ ∃ oArg amt, drawOf msg = some (oArg, amt) ∧ oArg.text = o) := by
+  cases hd : drawOf msg with
+  | some p =>
+    obtain ⟨oArg, amt⟩ := p
+    obtain ⟨_, al, al2, b1, _, _, _, _, _, _, e7, e8, _⟩ := draw_inv h hd
+    rw [e7, e8] at hne
+    have hk : oArg.text = o ∧ snd = sp := by
+      rcases hne with hne | hne
+      · have := key_of_set_ne hne; simp at this; exact this
+      · have := key_of_set_ne hne; simp at this; exact ⟨this.2, this.1⟩
+    exact .inr ⟨hk.2, oArg, amt, rfl, hk.1⟩
+  | none =>
+    left
+    cases msg <;> simp only [drawOf, reduceCtorEq] at hd <;> simp only [execute] at h
+    case transfer to amt =>
+      obtain ⟨_, b1, b2, _, _, rfl, _⟩ := execTransfer_inv h; simp at hne
+    case send c amt p =>
+      obtain ⟨_, b1, b2, _, _, rfl, _⟩ := execSend_inv h; simp at hne
+    case burn amt =>
+      obtain ⟨b1, _, _, rfl, _⟩ := execBurn_inv h; simp at hne
+    case mint to amt =>
+      obtain ⟨b, _, _, e1, e2, _⟩ := execMint_inv h; rw [e1, e2] at hne; simp at hne
+    case updateMinter new =>
+      obtain ⟨_, _, e1, e2, _⟩ := execUpdateMinter_inv h; rw [e1, e2] at hne; simp at hne
+    case increaseAllowance spArg amt e =>
+      obtain ⟨_, _, _, _, _, rfl, _⟩ := execIncreaseAllowance_inv h
+      simp only at hne
+      have hk : snd = o ∧ spArg.text = sp := by
+        rcases hne with hne | hne
+        · have := key_of_set_ne hne; simp at this; exact this
+        · have := key_of_set_ne hne; simp at this; exact ⟨this.2, this.1⟩
+      exact ⟨hk.1, spArg, rfl, hk.2⟩
+    case decreaseAllowance spArg amt e =>
+      obtain ⟨_, _, old, _, _, hc⟩ := execDecreaseAllowance_inv h
+      have hk : snd = o ∧ spArg.text = sp := by
+        rcases hc with ⟨_, _, rfl⟩ | ⟨_, rfl⟩ <;> simp only at hne
+        · rcases hne with hne | hne
+          · have := key_of_set_ne hne; simp at this; exact this
+          · have := key_of_set_ne hne; simp at this; exact ⟨this.2, this.1⟩
+        · rcases hne with hne | hne
+          · have := key_of_erase_ne hne; simp at this; exact this
+          · have := key_of_erase_ne hne; simp at this; exact ⟨this.2, this.1⟩
+      exact ⟨hk.1, spArg, rfl, hk.2⟩
+
+/-- **C02, allowance frame** (the map behind `query Allowance` / `AllAllowances`): the allowance of
+`(o, sp)` is changed by a successful call only by `o`'s own `Increase`/`DecreaseAllowance` for `sp`, or by
+`sp`'s own `TransferFrom`/`SendFrom`/`BurnFrom` on `o`.  (Failed calls change nothing: `step` rolls back.) -/
+theorem allowance_frame {s s' : State} {blk : Block} {snd : Addr} {msg : Msg} {out : List Out}
+    {o sp : Addr} (h : execute s blk snd msg = .ok (s', out))
+    (hne : s'.allow.get? (o, sp) ≠ s.allow.get? (o, sp)) :
+    (snd = o ∧ ∃ spArg, allowanceEditOf msg = some spArg ∧ spArg.text = sp) ∨
+    (snd = sp ∧ ∃ oArg amt, drawOf msg = some (oArg, amt) ∧ oArg.text = o) :=
+  allowance_frame_both h (.inl hne)
+
+/-- The same frame for the spender-keyed mirror map (behind `AllSpenderAllowances`). -/
+theorem allowanceSp_frame {s s' : State} {blk : Block} {snd : Addr} {msg : Msg} {out : List Out}
+    {o sp : Addr} (h : execute s blk snd msg = .ok (s', out))
+    (hne : s'.allowSp.get? (sp, o) ≠ s.allowSp.get? (sp, o)) :
+    (snd = o ∧ ∃ spArg, allowanceEditOf msg = some spArg ∧ spArg.text = sp) ∨
+    (snd = sp ∧ ∃ oArg amt, drawOf msg = some (oArg, amt) ∧ oArg.text = o) :=
+  allowance_frame_both h (.inr hne)
+
+/-! ## Clause 5: increase is exact, decrease saturates at zero, self / past-expiry rejected -/
+
+/-- **C02, increase is exact.** A successful `IncreaseAllowance{sp, amt, e}` by `snd` sets the entry of
+`(snd, sp)` to old amount (0 if absent) `+ amt` — which fits `u128` — with expiry `e` if given (and then
+unexpired) else the old one (`Never` if absent), in both maps; balances and supply are untouched. -/
+theorem increase_exact {s s' : State} {blk : Block} {snd : Addr} {sp : AddrArg} {amt : Nat}
+    {e : Option Expiration} {out : List Out}
+    (h : execute s blk snd (.increaseAllowance sp amt e) = .ok (s', out)) :
+    sp.valid = true ∧ sp.text ≠ snd ∧ (∀ x, e = some x → x.isExpired blk = false) ∧
+    (allowance s (snd, sp.text)).amount + amt ≤ U128_MAX ∧
+    s'.allow.get? (snd, sp.text) =
+      some ⟨(allowance s (snd, sp.text)).amount + amt, e.getD (allowance s (snd, sp.text)).expires⟩ ∧
+    s'.allowSp.get? (sp.text, snd) =
+      some ⟨((s.allowSp.get? (sp.text, snd)).getD Allowance.default).amount + amt,
+            e.getD ((s.allowSp.get? (sp.text, snd)).getD Allowance.default).expires⟩ ∧
+    s'.balances = s.balances ∧ s'.supply = s.supply := by
+  obtain ⟨hv, hne, he, h1, _, rfl, _⟩ := execIncreaseAllowance_inv h
+  exact ⟨hv, hne, he, h1, by simp [allowance], by simp, rfl, rfl⟩
+
+/-- **C02, decrease saturates at zero.** A successful `DecreaseAllowance{sp, amt, e}` by `snd` needs an
+existing entry `old`; if `amt < old.amount` the entry becomes `old.amount - amt` (expiry `e` if given, and
+then unexpired, else unchanged) in both maps; otherwise both entries are removed.  In either case the
+point query reports amount `old.amount - amt` (truncated subtraction, i.e. saturating at 0). -/
+theorem decrease_saturates {s s' : State} {blk : Block} {snd : Addr} {sp : AddrArg} {amt : Nat}
+    {e : Option Expiration} {out : List Out}
+    (h : execute s blk snd (.decreaseAllowance sp amt e) = .ok (s', out)) :
+    sp.valid = true ∧ sp.text ≠ snd ∧ ∃ old, s.allow.get? (snd, sp.text) = some old ∧
+      (amt < old.amount → (∀ x, e = some x → x.isExpired blk = false) ∧
+        s'.allow.get? (snd, sp.text) = some ⟨old.amount - amt, e.getD old.expires⟩ ∧
+        s'.allowSp.get? (sp.text, snd) = some ⟨old.amount - amt, e.getD old.expires⟩) ∧
+      (old.amount ≤ amt → s'.allow.get? (snd, sp.text) = none ∧ s'.allowSp.get? (sp.text, snd) = none) ∧
+      (allowance s' (snd, sp.text)).amount = old.amount - amt ∧
+      s'.balances = s.balances ∧ s'.supply = s.supply := by
+  obtain ⟨hv, hne, old, hold, _, hc⟩ := execDecreaseAllowance_inv h
+  refine ⟨hv, hne, old, hold, ?_⟩
+  rcases hc with ⟨hlt, he, rfl⟩ | ⟨hge, rfl⟩
+  · exact ⟨fun _ => ⟨he, by simp, by simp⟩, fun hc => by omega, by simp [allowance], rfl, rfl⟩
+  · refine ⟨fun hc => by omega, fun _ => ⟨by simp, by simp⟩, ?_, rfl, rfl⟩
+    simp [allowance, Allowance.default]; omega
+
+/-- **C02, self-allowance rejected**: nobody can grant (or reduce) an allowance to itself. -/
+theorem self_allowance_rejected {s : State} {blk : Block} {snd : Addr} {sp : AddrArg} {amt : Nat}
+    {e : Option Expiration} (hself : sp.text = snd) (r : State × List Out) :
+    execute s blk snd (.increaseAllowance sp amt e) ≠ .ok r ∧
+    execute s blk snd (.decreaseAllowance sp amt e) ≠ .ok r := by
+  obtain ⟨s', out⟩ := r
+  constructor
+  · intro h; exact (execIncreaseAllowance_inv h).2.1 hself
+  · intro h; exact (execDecreaseAllowance_inv h).2.1 hself
+
+/-- **C02, past expiry rejected (increase)**: an `IncreaseAllowance` carrying an expiry that is already
+expired at `blk` fails. -/
+theorem past_expiry_rejected_increase {s : State} {blk : Block} {snd : Addr} {sp : AddrArg} {amt : Nat}
+    {x : Expiration} (hx : x.isExpired blk = true) (r : State × List Out) :
+    execute s blk snd (.increaseAllowance sp amt (some x)) ≠ .ok r := by
+  obtain ⟨s', out⟩ := r
+  intro h
+  have := (execIncreaseAllowance_inv h).2.2.1 x rfl
+  rw [hx] at this; cases this
+
+/-- **C02, past expiry rejected (decrease)**: a `DecreaseAllowance` that leaves a positive remainder
+(`amt < old.amount`) and carries an already expired expiry fails.  (When `old.amount ≤ amt` the entry is
+removed and the expiry argument is ignored — see `decrease_ignores_expiry_on_removal`.) -/
+theorem past_expiry_rejected_decrease {s : State} {blk : Block} {snd : Addr} {sp : AddrArg} {amt : Nat}
+    {x : Expiration} {old : Allowance} (hold : s.allow.get? (snd, sp.text) = some old)
+    (hlt : amt < old.amount) (hx : x.isExpired blk = true) (r : State × List Out) :
+    execute s blk snd (.decreaseAllowance sp amt (some x)) ≠ .ok r := by
+  obtain ⟨s', out⟩ := r
+  intro h
+  have h' : execDecreaseAllowance s blk snd sp amt (some x) = .ok (s', out) := h
+  obtain ⟨_, _, old', hold', _, hc⟩ := execDecreaseAllowance_inv h'
+  rw [hold] at hold'; cases hold'
+  rcases hc with ⟨_, he, _⟩ | ⟨hge, _⟩
+  · have := he x rfl; rw [hx] at this; cases this
+  · omega
+
+/-! ## Clause 6: `Send` / `SendFrom` notify the receiving contract exactly once -/
+
+/-- The messages a successful call must emit: one `Cw20ReceiveMsg{sender, amount, msg}` to the contract
+for `Send`/`SendFrom` — `sender` is the caller (for `SendFrom` the spender, the true initiator, not the
+owner) — and nothing for every other kind. -/
+def expectedOut (snd : Addr) : Msg → List Out
+  | .send c amt p => [⟨c.text, snd, amt, p⟩]
+  | .sendFrom _ c amt p => [⟨c.text, snd, amt, p⟩]
+  | _ => []
+
+/-- **C02, notification.** On success `out = expectedOut snd msg`: exactly one notification for
+`Send`/`SendFrom`, to the named contract, naming the caller, the amount (which by `holder_move_exact` /
+`draw_exact_sendFrom` is the amount actually moved) and the attached payload; no message otherwise. -/
+theorem send_notifies_once {s s' : State} {blk : Block} {snd : Addr} {msg : Msg} {out : List Out}
+    (h : execute s blk snd msg = .ok (s', out)) : out = expectedOut snd msg := by
+  cases msg <;> simp only [execute] at h <;> simp only [expectedOut]
+  case transfer to amt => exact (execTransfer_inv h).2.choose_spec.choose_spec.2.2.2
+  case burn amt => exact (execBurn_inv h).choose_spec.2.2.2
+  case send c amt p => exact (execSend_inv h).2.choose_spec.choose_spec.2.2.2
+  case mint to amt => exact (execMint_inv h).choose_spec.2.2.2.2
+  case updateMinter new => exact (execUpdateMinter_inv h).2.2.2.2
+  case increaseAllowance sp amt e => exact (execIncreaseAllowance_inv h).2.2.2.2.2.2
+  case decreaseAllowance sp amt e => exact (execDecreaseAllowance_inv h).2.2.choose_spec.2.1
+  case transferFrom o r amt =>
+    obtain ⟨_, _, _, _, _, _, _, _, _, ho⟩ := execTransferFrom_inv h; exact ho
+  case burnFrom o amt =>
+    obtain ⟨_, _, _, _, _, _, _, ho⟩ := execBurnFrom_inv h; exact ho
+  case sendFrom o c amt p =>
+    obtain ⟨_, _, _, _, _, _, _, _, _, ho⟩ := execSendFrom_inv h; exact ho
+
 end CwPlus.Props.C02
